@@ -8,7 +8,9 @@ use crate::{Outcome, Tier};
 use serde_json::{json, Value};
 use std::collections::{BTreeMap, VecDeque};
 
-const TARGETS: [&str; 6] = ["m", "e", "L", "sub/e", "z", "nodir/m"]; // missing, existing shorter, existing longer, in a subdirectory, existing EMPTY, missing in a missing directory
+/// an existing file whose full path is longer than 255 octets (every component is an ordinary 55-character name)
+const DEEP: &str = "ddddddddddddddddddddddddddddddddddddddddddddddddddddddd/ddddddddddddddddddddddddddddddddddddddddddddddddddddddd/ddddddddddddddddddddddddddddddddddddddddddddddddddddddd/ddddddddddddddddddddddddddddddddddddddddddddddddddddddd/ddddddddddddddddddddddddddddddddddddddddddddddddddddddd/e";
+const TARGETS: [&str; 7] = ["m", "e", "L", "sub/e", "z", "nodir/m", DEEP]; // missing, existing shorter, existing longer, in a subdirectory, existing EMPTY, missing in a missing directory, existing at a deep path
 
 fn optsets() -> Vec<Vec<(String, String)>> {
     vec![vec![], vec![("blksize".into(), "8".into())], vec![("tsize".into(), "0".into()), ("windowsize".into(), "2".into())], vec![("timeout".into(), "0".into())]]
@@ -42,6 +44,12 @@ fn initial_tree() -> Tree {
         t.insert(format!("{base}/L"), content(100, 12));
         t.insert(format!("{base}/sub/e"), content(10, 13));
         t.insert(format!("{base}/z"), vec![]);
+        let mut dir = base.to_string();
+        for seg in DEEP.split('/').take(5) {
+            dir = format!("{dir}/{seg}");
+            t.insert(format!("{dir}/"), vec![]);
+        }
+        t.insert(format!("{base}/{DEEP}"), content(10, 14));
     }
     t
 }
@@ -331,7 +339,7 @@ pub fn check(tier: Tier) -> Outcome {
     let res = run_cells("c06", cells, &crate::pool_opts(tier));
     let mut out = Outcome::new("C06", "model_checking");
     out.absorb(res, n);
-    out.rule = format!("explicit-state breadth-first search over file-tree states (state = sorted (path, bytes) snapshot, deduplicated by hash) from the initial tree {{e 10 B, L 100 B, sub/e}}; transitions = 48 request actions ({{RRQ,WRQ}} x {{missing, existing shorter, existing longer, in subdirectory, existing empty, missing in a missing directory}} x {{no options, blksize 8, tsize+windowsize 2, timeout 0 (a value the server cannot honour: the three refusals are still due)}}; uploads carry a 40-byte payload unique per (depth, action)) carried to their end against the real Server; depth <= {depth}; 48 configurations, each explored once with a fresh client socket per request and once with ALL requests from one client endpoint ({{read-only}} x {{overwrite}} x {{clean,keep}} x {{single,multi}} x {{shared dir, -d/-sd/-rd all given, -d + -rd with the send directory by fallback}}). Every transition is judged by a reference policy function (ERROR 2 / 6 / 1, refusal from the listening port, no transfer thread, disk unchanged; accepted uploads replace the content entirely). A tree reached a second time by another path is probed and compared with its first visit (hidden-state guard). non-trivial = transitions that transferred a file.");
+    out.rule = format!("explicit-state breadth-first search over file-tree states (state = sorted (path, bytes) snapshot, deduplicated by hash) from the initial tree {{e 10 B, L 100 B, sub/e}}; transitions = 56 request actions ({{RRQ,WRQ}} x {{missing, existing shorter, existing longer, in subdirectory, existing empty, missing in a missing directory, existing at a path longer than 255 octets}} x {{no options, blksize 8, tsize+windowsize 2, timeout 0 (a value the server cannot honour: the three refusals are still due)}}; uploads carry a 40-byte payload unique per (depth, action)) carried to their end against the real Server; depth <= {depth}; 48 configurations, each explored once with a fresh client socket per request and once with ALL requests from one client endpoint ({{read-only}} x {{overwrite}} x {{clean,keep}} x {{single,multi}} x {{shared dir, -d/-sd/-rd all given, -d + -rd with the send directory by fallback}}). Every transition is judged by a reference policy function (ERROR 2 / 6 / 1, refusal from the listening port, no transfer thread, disk unchanged; accepted uploads replace the content entirely). A tree reached a second time by another path is probed and compared with its first visit (hidden-state guard). non-trivial = transitions that transferred a file.");
     out.assumptions = vec!["the server's own worker threads are not scheduled by the harness; the driver keeps one request in flight and waits for quiescence".into()];
     out
 }
